@@ -487,11 +487,13 @@ func forChildren(m *ServeMux, stanzaVal interface{}, t xmlstream.TokenReadEncode
 	/* #nosec */
 	defer iterator.Close()
 
+	payloads := false
 	for iterator.Next() {
 		start, _ := iterator.Current()
 		if start == nil {
 			continue
 		}
+		payloads = true
 
 		var err error
 		switch s := stanzaVal.(type) {
@@ -528,9 +530,9 @@ func forChildren(m *ServeMux, stanzaVal interface{}, t xmlstream.TokenReadEncode
 	if len(errs) > 0 {
 		return multiErr(errs)
 	}
-	// If the only tokens are the start and close tokens, trigger any wildcard
-	// handlers.
-	if len(r.buf) == 2 {
+	// If the stanza has no child elements (whitespace between its start and
+	// close tokens does not count), trigger any wildcard handlers.
+	if !payloads {
 		r.offset = 0
 		switch s := stanzaVal.(type) {
 		case stanza.Presence:
